@@ -12,6 +12,7 @@ import (
 	"fmt"
 	"os"
 	"runtime"
+	"strings"
 
 	"github.com/gocql/gocql"
 	"gocqlverif/c04lib"
@@ -757,6 +758,92 @@ func main() {
 		"org.apache.cassandra.db.marshal.CompositeType(org.apache.cassandra.db.marshal.ColumnToCollectionType(org.apache.cassandra.db.marshal.Int32Type))",
 		"org.apache.cassandra.db.marshal.CompositeType()", "", " ", "A", "A()", "A(B)x"} {
 		tryMarshal("marshal-type-edge", s, true)
+	}
+	// ---- length boundaries of every variable-length token of the class-name grammar, systematically -----------
+	// (not sampled: the same strings for every seed)
+	{
+		P := c04lib.MarshalPrefix
+		seen := map[string]bool{}
+		var all []string
+		add := func(s string) {
+			if !seen[s] {
+				seen[s] = true
+				all = append(all, s)
+			}
+		}
+		rep := func(unit string, n int) string { return strings.Repeat(unit, n) }
+		lens := []int{0, 1, 2, 23, 24, 25, 47, 48, 49, 64, 100, 200, 1000}
+		// collection names of ColumnToCollectionType(<hex>:<type>): n bytes of hex (lower / upper case), odd-length
+		// hex, non-hex of the same length, as the only / second / third named parameter, for list, set and map
+		for _, n := range lens {
+			names := []string{rep("6b", n), rep("4B", n), rep("6b", n) + "6", rep("zy", n), rep("6b", n) + "zz"}
+			for ni, name := range names {
+				for ci, coll := range []string{"ListType(" + P + "Int32Type)", "SetType(" + P + "UTF8Type)", "MapType(" + P + "Int32Type," + P + "BytesType)"} {
+					if ni > 0 && ci > 0 && n != 49 && n != 100 {
+						continue
+					}
+					one := name + ":" + P + coll
+					add(P + "CompositeType(" + P + "Int32Type," + P + "ColumnToCollectionType(" + one + "))")
+					if ci == 0 {
+						add(P + "CompositeType(" + P + "ColumnToCollectionType(" + one + "))")
+						add(P + "CompositeType(" + P + "UTF8Type," + P + "ColumnToCollectionType(61:" + P + coll + "," + one + "))")
+						add(P + "CompositeType(" + P + "UTF8Type," + P + "ColumnToCollectionType(" + one + ",62:" + P + coll + "," + one + "x))")
+						add(P + "ColumnToCollectionType(" + one + ")") // not inside a composite
+						add(P + "CompositeType(" + P + "ColumnToCollectionType(" + one + ")," + P + "Int32Type)") // not last
+					}
+				}
+			}
+		}
+		// parameter counts 0..5 for every class name the parser knows (and two it does not), named and unnamed
+		for _, cls := range []string{"ReversedType", "CompositeType", "ColumnToCollectionType", "ListType", "SetType", "MapType", "TupleType", "UserType", "FrozenType", "Int32Type"} {
+			add(P + cls)
+			for n := 0; n <= 5; n++ {
+				ps, named := make([]string, n), make([]string, n)
+				for i := range ps {
+					ps[i] = P + "Int32Type"
+					named[i] = fmt.Sprintf("6%d:", i) + P + "UTF8Type"
+				}
+				add(P + cls + "(" + strings.Join(ps, ",") + ")")
+				add(P + cls + "(" + strings.Join(named, ",") + ")")
+				add(P + "CompositeType(" + P + "BytesType," + P + cls + "(" + strings.Join(named, ",") + "))")
+				add(P + "ReversedType(" + P + cls + "(" + strings.Join(ps, ",") + "))")
+			}
+		}
+		// nesting depths
+		for _, d := range []int{1, 2, 3, 5, 10, 50, 200, 1000} {
+			for _, cls := range []string{"ListType", "ReversedType", "CompositeType", "MapType"} {
+				add(rep(P+cls+"(", d) + P + "Int32Type" + rep(")", d))
+			}
+			add(rep(P+"ListType(", d) + P + "Int32Type" + rep(")", d-1))                // one ")" short
+			add(P + "CompositeType(" + rep(P+"ColumnToCollectionType(61:", d) + P + "Int32Type" + rep(")", d) + ")")
+		}
+		// very long identifiers: class names, parameter names, white space runs
+		for _, n := range []int{1, 47, 48, 49, 255, 256, 1000, 10000, 70000} {
+			add(rep("A", n))
+			add(P + rep("x", n))
+			add(P + "ListType(" + rep("y", n) + ")")
+			add(P + "CompositeType(" + P + "ColumnToCollectionType(" + rep("a", n) + ":" + rep("B", n) + "))")
+			add(P + "MapType(" + rep(" ", n) + P + "Int32Type" + rep("\t", n) + "," + P + "UTF8Type)")
+			add(rep("(", n))
+			add("A(" + rep(",", n) + ")")
+			add("A(" + rep(":", n) + ")")
+		}
+		nb, np := 0, 0
+		for _, s := range all {
+			short := len(s) <= 400
+			// (a Coq case only up to 2500 bytes: a list literal of 70000 numbers overflows coqc's stack)
+			tryMarshal("marshal-type-boundary", s, short || (nb%5 == 0 && len(s) <= 2500))
+			nb++
+			// every prefix (all of them for strings up to 2500 bytes; for the longer ones the first and last 400 cuts)
+			for cut := 0; cut < len(s); cut++ {
+				if len(s) > 2500 && cut > 400 && cut < len(s)-400 {
+					continue
+				}
+				np++
+				tryMarshal("marshal-type-boundary-prefix", s[:cut], short && np%150 == 0)
+			}
+		}
+		o.Extra["marshal_type_boundary_strings"] = len(all)
 	}
 	for _, s := range []string{"frozen<", "set<", "list<", "map<", "tuple<", "map<int>", "map<int, int, int>", "frozen<>", "tuple<>", "", "<", ">", "map<,>"} {
 		tryCQL("cql-type-edge", s, true)
